@@ -66,16 +66,18 @@ class Elem:
 
 
 class ESet:
-    def __init__(self, elems, ops, ext=False, all_except=False):
+    def __init__(self, elems, ops, ext=False, all_except=False, paren=False):
         self.elems, self.ops, self.ext, self.all_except = elems, ops, ext, all_except
+        self.paren = paren      # every element is written as a parenthesised element set: `((0..5) | (7..9), ...)`
 
     def phs(self):
         return [p for e in self.elems for p in e.phs()]
 
     def text(self, val):
-        s = self.elems[0].text(val)
+        et = (lambda e: '(' + e.text(val) + ')') if self.paren else (lambda e: e.text(val))
+        s = et(self.elems[0])
         for op, e in zip(self.ops, self.elems[1:]):
-            s += ' ' + op + ' ' + e.text(val)
+            s += ' ' + op + ' ' + et(e)
         if self.all_except:
             s = 'ALL EXCEPT ' + s
         if self.ext:
@@ -94,9 +96,10 @@ class ESet:
         return [c for e in self.elems for c in e.wf(val)]
 
     def role(self):
-        s = self.elems[0].role()
+        er = (lambda e: '(' + e.role() + ')') if self.paren else (lambda e: e.role())
+        s = er(self.elems[0])
         for op, e in zip(self.ops, self.elems[1:]):
-            s += ' ' + op + ' ' + e.role()
+            s += ' ' + op + ' ' + er(e)
         return ('ALL EXCEPT ' if self.all_except else '') + s + (', ...' if self.ext else '')
 
 
@@ -242,6 +245,10 @@ def shapes(tier, contexts=('assign', 'component'), size_types=()):
         for k1, k2 in itertools.product(ser, ser if thorough else ser[:2]):
             for e1 in (False, True):
                 out.append(Shape([ESet([mk_elem(k1)], [], e1), ESet([mk_elem(k2)], [], False)], ctx))
+            # the marker on the constraint applied LAST (X.680 50.8: that one decides), alone and on both
+            if k2 in ser[:2] and (thorough or k1 in ser[:2]):
+                for e1 in (False, True):
+                    out.append(Shape([ESet([mk_elem(k1)], [], e1), ESet([mk_elem(k2)], [], True)], ctx))
         if thorough:
             for k1 in ser[:2]:
                 out.append(Shape([ESet([mk_elem(k1), mk_elem(('range', 'lo', 'hi'))], ['|'], False), ESet([mk_elem(('range', 'lo', 'hi'))], [], True)], ctx))
@@ -259,6 +266,14 @@ def shapes(tier, contexts=('assign', 'component'), size_types=()):
         for st in size_types[:2] + size_types[-1:]:
             for k in (('single',), ('range', 'lo', 'hi'), ('range', 'lo', 'MAX')):
                 out.append(Shape([ESet([mk_elem(k)], [], False)], ctx, size_of=st))
+    # parenthesised element sets inside a constraint (X.680 50.5 Elements ::= "(" ElementSetSpec ")"), with the marker outside
+    for ctx in ('assign', 'component'):
+        for ext in (False, True):
+            out.append(Shape([ESet([mk_elem(('range', 'lo', 'hi'))], [], ext, paren=True)], ctx))
+            out.append(Shape([ESet([mk_elem(('range', 'lo', 'hi')), mk_elem(('range', 'lo', 'hi'))], ['|'], ext, paren=True)], ctx))
+            out.append(Shape([ESet([mk_elem(('single',)), mk_elem(('range', 'lo', 'MAX'))], ['|'], ext, paren=True)], ctx))
+        out.append(Shape([ESet([mk_elem(('range', 'lo', 'hi'))], [], False, paren=True), ESet([mk_elem(('range', 'lo', 'hi'))], [], True)], ctx))
+        out.append(Shape([ESet([mk_elem(('range', 'lo', 'hi'))], [], True, paren=True), ESet([mk_elem(('range', 'lo', 'hi'))], [], False, paren=True)], ctx))
     # named numbers of the constrained type as bounds, while another type declares the same names
     for k in ks[:4]:
         out.append(Shape([ESet([mk_elem(k)], [], False)], 'named-clash'))
